@@ -13,15 +13,20 @@ import random
 
 
 class Ctx:
-    def __init__(self, tier, seed):
+    def __init__(self, tier, seed, escalated=False):
         self.tier = tier
         self.seed = seed
         self.quick = tier == "quick"
+        # the anchored source changed since the model was last validated against it: spend more search
+        self.escalated = escalated and self.quick
 
     def rng(self, name):
         return random.Random(f"{self.seed}:{name}")
 
     def pick(self, quick, thorough):
+        if (self.escalated and isinstance(quick, int) and isinstance(thorough, int) and not isinstance(quick, bool)
+                and quick >= 20):  # numbers of random cases, not structural sizes (list lengths, grid bounds)
+            return max(quick, min(thorough, quick * 6))
         return quick if self.quick else thorough
 
 
